@@ -569,7 +569,8 @@ def isoptionaltype(obj: type[_OT]) -> compat.TypeIs[type[tp.Optional[_OT]]]:
         >>> isoptionaltype(Dict[str, None])
     False
     """
-    args = getattr(obj, "__args__", ())
+    # Look through aliases, NewTypes and qualifiers, like `origin()` does below.
+    args = getattr(unwrap(obj), "__args__", ())
     tname = name(origin(obj))
     nullarg = next((a for a in args if a in (type(None), None)), ...)
     isoptional = tname == "Optional" or (
